@@ -44,7 +44,7 @@ type Repo struct {
 	Remotes map[string]string
 	FS      *vfs.FS
 	gogit   *repository.GoGitRepo // real clock code (clocks map + local storage only)
-	local   *repository.MemConfig
+	local   repository.Config // MemConfig unless a harness installs another implementation
 	global  *repository.MemConfig
 	Indexes map[string]*Index
 	Keys    *Keyring
@@ -100,6 +100,10 @@ func (r *Repo) Restart() {
 // ---- RepoConfig / Keyring / Common / Storage / Index ----
 
 func (r *Repo) LocalConfig() repository.Config      { return r.local }
+
+// UseLocalConfig installs another implementation of the local configuration (the real
+// go-git backed one over an in-memory store, in the wipe harness).
+func (r *Repo) UseLocalConfig(c repository.Config) { r.local = c }
 func (r *Repo) GlobalConfig() repository.Config     { return r.global }
 func (r *Repo) AnyConfig() repository.ConfigRead    { return r.local }
 func (r *Repo) Keyring() repository.Keyring         { return r.Keys }
